@@ -64,6 +64,22 @@ func c14SameReq(a, b c14Req) bool {
 	return a.Max == nil || *a.Max == *b.Max
 }
 
+// c14PBEqual: equal byte for byte up to the order of the fields within a message, which the protobuf
+// wire format leaves unspecified (canonical form = records sorted by field number, repeated elements
+// in order; BlockResponse field 1 is a nested message).
+func c14PBEqual(r *verifmc.Report, got, want []byte, nestedField1 bool) bool {
+	if bytes.Equal(got, want) {
+		r.Outcome("protobuf:identical-bytes")
+		return true
+	}
+	c, err := ref.C14PBCanon(got, map[string]bool{"1": nestedField1}, "")
+	if err == nil && bytes.Equal(c, want) {
+		r.Outcome("protobuf:same-records-in-another-field-order")
+		return true
+	}
+	return false
+}
+
 func c14CheckReq(r *verifmc.Report, q c14Req) {
 	want := c14RefReq(q).B
 	replay := map[string]any{"request": q.String(), "reference_encoding": verifmc.Hex(want)}
@@ -73,7 +89,7 @@ func c14CheckReq(r *verifmc.Report, q c14Req) {
 	switch {
 	case err != nil:
 		r.Violate("BlockRequest.encode:error", fmt.Sprintf("%s: %v", q, err), replay)
-	case !bytes.Equal(enc, want):
+	case !c14PBEqual(r, enc, want, false):
 		r.Outcome("request:encode-differs")
 		r.Violate("BlockRequest.encode:bytes-differ-from-reference", fmt.Sprintf("%s encodes to %x, reference %x", q, enc, want), replay)
 	default:
@@ -169,7 +185,7 @@ func c14CheckResp(r *verifmc.Report, blocks []c14Block) {
 		r.Violate("BlockResponse.encode:panic:"+verifmc.PanicSite(pm), pm, replay)
 	} else if err != nil {
 		r.Violate("BlockResponse.encode:error", fmt.Sprintf("%s: %v", name, err), replay)
-	} else if !bytes.Equal(enc, want) {
+	} else if !c14PBEqual(r, enc, want, true) {
 		r.Outcome("response:encode-differs")
 		r.Violate("BlockResponse.encode:bytes-differ-from-reference", fmt.Sprintf("%s encodes to %x, reference %x", name, enc, want), replay)
 	} else {
@@ -209,7 +225,7 @@ func TestVerif_C14_messages(t *testing.T) {
 	defer r.Write()
 	r.Rule = "block requests: every requested-data mask 0..31 x from {hash, zero hash, number 0, 1, 2^32-1} x direction x max {nil, 0, 1, 128, 2^32-1}; " +
 		"block responses: every single block over header {absent, 3 headers covering every digest kind} x body {absent, empty, 1, 2 extrinsics} x receipt/queue/justification {absent, empty, 3 bytes}, " +
-		"every ordered pair of blocks of a reduced menu, the empty response; each value: Encode vs a hand-rolled protobuf wire writer, Decode of the reference bytes vs the description"
+		"every ordered pair of blocks of a reduced menu, the empty response; each value: Encode vs a hand-rolled protobuf wire writer (byte for byte up to the order of fields within a message, which the wire format leaves open), Decode of the reference bytes vs the description"
 	r.Assumption("reference protobuf writer internal/verifmc/ref c14_wire.go: fields in number order, proto3 implicit presence")
 
 	// reference self-check against the protobuf encoding guide's example: field 1 varint 150 = 08 96 01
